@@ -1,1 +1,394 @@
-fn main(){}
+//! C04 — BAI / CSI / tabix region queries ≡ filtered linear scan.
+//!
+//! E1, complete: sorted record sets from the bin-edge alphabet × block layouts × reference containers ×
+//! index kinds; every region of the edge alphabet ± 1 (plus every record end ± 1), open-ended regions,
+//! whole references and the unmapped query, with the index used in memory and after write → read.
+//! Oracle: the harness's own model of the file (what was written; spans by `gidx::span`), never a second
+//! call into noodles.
+
+mod bamx;
+mod model;
+mod vcfx;
+
+use std::path::PathBuf;
+
+use gidx::spec;
+use noodles_bam::{self as bam, bai};
+use noodles_bcf as bcf;
+use noodles_csi::{
+    self as csi,
+    binning_index::index::reference_sequence::index::{BinnedIndex, LinearIndex},
+};
+use noodles_tabix as tabix;
+use noodles_vcf as vcf;
+use vmc::{Chooser, Config, Outcome, Violation};
+
+use model::Rec;
+
+#[derive(Clone, Copy, Debug, PartialEq)]
+enum Kind {
+    /// BAM + `bam::fs::index` → BAI
+    BamBai,
+    /// BAM + `Indexer::<BinnedIndex>::new(ms, d)` driven by the `fs::index` reader loop → CSI
+    BamBinned(u8, u8),
+    /// BAM + `Indexer::<LinearIndex>::new(ms, d)` (in memory only: no file format carries it)
+    BamLinear(u8, u8),
+    /// BCF + `bcf::fs::index` → CSI
+    BcfCsi,
+    /// bgzipped VCF + `vcf::fs::index` → tabix
+    VcfTabix,
+    /// bgzipped VCF + `Indexer::<BinnedIndex>::new(ms, d)` with a tabix header in the CSI aux
+    VcfBinned(u8, u8),
+}
+
+impl Kind {
+    fn geometry(self) -> (u8, u8) {
+        match self {
+            Kind::BamBai | Kind::BcfCsi | Kind::VcfTabix => (14, 5),
+            Kind::BamBinned(ms, d) | Kind::BamLinear(ms, d) | Kind::VcfBinned(ms, d) => (ms, d),
+        }
+    }
+    fn is_vcf(self) -> bool {
+        matches!(self, Kind::BcfCsi | Kind::VcfTabix | Kind::VcfBinned(..))
+    }
+    fn label(self) -> &'static str {
+        match self {
+            Kind::BamBai => "bai(bam::fs::index)",
+            Kind::BamBinned(14, 5) => "csi(indexer-binned,bam,default-geometry)",
+            Kind::BamBinned(..) => "csi(indexer-binned,bam,non-default-geometry)",
+            Kind::BamLinear(..) => "linear(indexer-linear,bam,non-default-geometry)",
+            Kind::BcfCsi => "csi(bcf::fs::index)",
+            Kind::VcfTabix => "tabix(vcf::fs::index)",
+            Kind::VcfBinned(14, 5) => "csi(indexer-binned,vcf,default-geometry)",
+            Kind::VcfBinned(..) => "csi(indexer-binned,vcf,non-default-geometry)",
+        }
+    }
+}
+
+/// Containers: (number of references, focus reference, fillers for the other references).
+/// Filler 0 = empty reference, 1 = one short record at 1, 2 = a long record followed by a short one.
+const CONTAINERS: [(usize, usize, [usize; 3]); 4] = [
+    (1, 0, [0, 0, 0]),
+    (2, 0, [0, 2, 0]),
+    (3, 1, [1, 0, 0]),
+    (3, 2, [0, 2, 0]),
+];
+
+struct Space {
+    kinds: Vec<Kind>,
+    /// (block layout, container, unplaced unmapped records)
+    combos: Vec<(usize, usize, usize)>,
+    max_records: usize,
+    reduced: bool,
+    scratch: PathBuf,
+}
+
+fn combos_covering() -> Vec<(usize, usize, usize)> {
+    vec![(0, 0, 0), (1, 1, 2), (2, 2, 1), (1, 3, 0)]
+}
+
+fn combos_pairs() -> Vec<(usize, usize, usize)> {
+    let mut v = Vec::new();
+    for l in 0..3 {
+        for c in 0..CONTAINERS.len() {
+            v.push((l, c, (l + c) % 3));
+        }
+    }
+    v
+}
+
+fn scratch_file(sp: &Space, ext: &str) -> PathBuf {
+    sp.scratch.join(format!("{:?}.{ext}", std::thread::current().id()).replace(['(', ')'], "_"))
+}
+
+fn io_v(label: &str, stage: &str, describe: &dyn Fn() -> String, e: std::io::Error) -> Violation {
+    Violation::new(
+        format!("index={label} stage={stage} symptom=error kind={:?}", e.kind()),
+        describe(),
+        "Ok",
+        e.to_string(),
+    )
+}
+
+fn body(ch: &Chooser, sp: &Space) -> Outcome {
+    let kind = *ch.pick_free("index", &sp.kinds);
+    let (ms, d) = kind.geometry();
+    let (msu, du) = (ms as u32, d as u32);
+    let (layout, container, unplaced) = *ch.pick_free("combo", &sp.combos);
+    let (n_refs, focus, fillers) = CONTAINERS[container];
+    let is_vcf = kind.is_vcf();
+    let flavour = if is_vcf { ch.free("vcf-flavour", 2) } else { 0 };
+    // the index is used as built (0) or after its writer -> reader (1)
+    let reread = !matches!(kind, Kind::BamLinear(..)) && ch.free("stage", 2) == 1;
+    let unplaced = if is_vcf { 0 } else { unplaced };
+    let n_pos = spec::n_positions(msu, du);
+    // BAM positions are 31-bit; BAI / tabix / default CSI end at 2^29 - 1
+    let ln = (n_pos - 1).min((1 << 31) - 1);
+    let shapes = model::shapes(msu, du, ln, sp.reduced, !is_vcf, !is_vcf);
+
+    // the focus reference: a sorted sequence (ties in either order) of up to max_records shapes
+    let mut focus_shapes: Vec<(u64, u64, bool)> = Vec::new();
+    let mut lo = 0usize;
+    for _ in 0..sp.max_records {
+        let c = ch.free("shape", shapes.len() - lo + 1);
+        if c == 0 {
+            break;
+        }
+        let s = shapes[lo + c - 1];
+        focus_shapes.push(s);
+        lo = shapes.iter().position(|x| x.0 == s.0).unwrap();
+    }
+    let l = 1u64 << ms;
+    let mut recs: Vec<Rec> = Vec::new();
+    let mut push = |rid: Option<usize>, start: u64, span: u64, mapped: bool| {
+        let cigar = if is_vcf || !mapped { vec![] } else { model::cigar_for(span, msu) };
+        let end = if is_vcf {
+            vcfx::model_end(flavour, start, span)
+        } else if rid.is_some() {
+            gidx::span::sam_end(start, &cigar)
+        } else {
+            0
+        };
+        let ord = recs.len();
+        recs.push(Rec { ord, rid, start, end, unmapped: !mapped, cigar, span });
+    };
+    for rid in 0..n_refs {
+        if rid == focus {
+            for &(s, spn, m) in &focus_shapes {
+                push(Some(rid), s, spn, m);
+            }
+        } else {
+            match fillers[rid] {
+                0 => {}
+                1 => push(Some(rid), 1, 1, true),
+                _ => {
+                    push(Some(rid), 1, l + 1, true);
+                    push(Some(rid), l + 1, 1, true);
+                }
+            }
+        }
+    }
+    for _ in 0..unplaced {
+        push(None, 0, 0, false);
+    }
+    let describe = || {
+        let list: Vec<String> = recs
+            .iter()
+            .map(|r| match r.rid {
+                None => format!("#{} unplaced-unmapped", r.ord),
+                Some(id) if is_vcf => format!("#{} sq{id}:{} span {} (end {})", r.ord, r.start, r.span, r.end),
+                Some(id) => format!(
+                    "#{} sq{id}:{} CIGAR {}{} (end {})",
+                    r.ord,
+                    r.start,
+                    if r.cigar.is_empty() { "*".to_string() } else { r.cigar.iter().map(|(o, n)| format!("{n}{}", o.ch())).collect() },
+                    if r.unmapped { " flag 0x4" } else { "" },
+                    r.end
+                ),
+            })
+            .collect();
+        format!(
+            "{kind:?}{}{}: {n_refs} reference(s), records in file order [{}], layout {} ",
+            if reread { " index after write->read" } else { " index in memory" },
+            if is_vcf { format!(" VCFv{}.{}", vcfx::file_format(flavour).0, vcfx::file_format(flavour).1) } else { String::new() },
+            list.join(", "),
+            ["flush-after-every-record", "never-flush", "flush-after-first-record"][layout]
+        )
+    };
+    ch.desc(describe);
+    let label = kind.label();
+    let mut queries = 0u64;
+    let mut nonempty = 0u64;
+    let mut pruned = 0u64;
+
+    if !is_vcf {
+        let header = bamx::header(n_refs, ln);
+        let bytes = bamx::write_bam(&header, &recs, layout).map_err(|e| io_v(label, "write-file", &describe, e))?;
+        ch.obs_hash(&bytes);
+        let header = bamx::scan(&bytes, &recs, &describe)?;
+        macro_rules! run {
+            ($ix:expr, $stage:expr) => {{
+                let st = bamx::check_queries(ch, &bytes, &header, $ix, &recs, n_refs, ln, label, $stage, &describe)?;
+                queries += st.queries;
+                nonempty += st.nonempty;
+                pruned += st.pruned;
+            }};
+        }
+        match kind {
+            Kind::BamBai => {
+                let path = scratch_file(sp, "bam");
+                std::fs::write(&path, &bytes).map_err(|e| vmc::machinery(format!("scratch write: {e}"))).ok();
+                let ix: bai::Index = bam::fs::index(&path).map_err(|e| io_v(label, "index", &describe, e))?;
+                if !reread {
+                    run!(&ix, "memory");
+                } else {
+                    let mut buf = Vec::new();
+                    bai::io::Writer::new(&mut buf).write_index(&ix).map_err(|e| io_v(label, "write-index", &describe, e))?;
+                    let back = bai::io::Reader::new(&buf[..]).read_index().map_err(|e| io_v(label, "read-index", &describe, e))?;
+                    if back == ix {
+                        ch.tag("index-equal-after-write-read");
+                    }
+                    run!(&back, "reread");
+                }
+            }
+            Kind::BamBinned(ms, d) => {
+                let ix: csi::Index = bamx::index_with::<BinnedIndex>(&bytes, ms, d, n_refs).map_err(|e| io_v(label, "index", &describe, e))?;
+                if !reread {
+                    run!(&ix, "memory");
+                } else {
+                    let back = csi_rt(&ix).map_err(|e| io_v(label, "write-read-index", &describe, e))?;
+                    if back == ix {
+                        ch.tag("index-equal-after-write-read");
+                    }
+                    run!(&back, "reread");
+                }
+            }
+            Kind::BamLinear(ms, d) => {
+                let ix = bamx::index_with::<LinearIndex>(&bytes, ms, d, n_refs).map_err(|e| io_v(label, "index", &describe, e))?;
+                run!(&ix, "memory");
+            }
+            _ => unreachable!(),
+        }
+    } else {
+        let header = vcfx::header(flavour, n_refs);
+        let is_bcf = kind == Kind::BcfCsi;
+        let bytes = if is_bcf { vcfx::write_bcf(&header, flavour, &recs, layout) } else { vcfx::write_vcf_gz(&header, flavour, &recs, layout) }
+            .map_err(|e| io_v(label, "write-file", &describe, e))?;
+        ch.obs_hash(&bytes);
+        let header = if is_bcf { vcfx::scan_bcf(&bytes, &recs, flavour, &describe)? } else { vcfx::scan_vcf(&bytes, &recs, flavour, &describe)? };
+        let src = if is_bcf { vcfx::Src::Bcf(&bytes) } else { vcfx::Src::Vcf(&bytes) };
+        macro_rules! run {
+            ($ix:expr, $stage:expr) => {{
+                let st = vcfx::check_queries(ch, &src, &header, $ix, &recs, n_refs, label, $stage, &describe)?;
+                queries += st.queries;
+                nonempty += st.nonempty;
+                pruned += st.pruned;
+            }};
+        }
+        match kind {
+            Kind::BcfCsi => {
+                let path = scratch_file(sp, "bcf");
+                std::fs::write(&path, &bytes).map_err(|e| vmc::machinery(format!("scratch write: {e}"))).ok();
+                let ix: csi::Index = bcf::fs::index(&path).map_err(|e| io_v(label, "index", &describe, e))?;
+                if !reread {
+                    run!(&ix, "memory");
+                } else {
+                    let back = csi_rt(&ix).map_err(|e| io_v(label, "write-read-index", &describe, e))?;
+                    if back == ix {
+                        ch.tag("index-equal-after-write-read");
+                    }
+                    run!(&back, "reread");
+                }
+            }
+            Kind::VcfTabix => {
+                let path = scratch_file(sp, "vcf.gz");
+                std::fs::write(&path, &bytes).map_err(|e| vmc::machinery(format!("scratch write: {e}"))).ok();
+                let ix: tabix::Index = vcf::fs::index(&path).map_err(|e| io_v(label, "index", &describe, e))?;
+                if !reread {
+                    run!(&ix, "memory");
+                } else {
+                    let mut buf = Vec::new();
+                    {
+                        let mut w = tabix::io::Writer::new(&mut buf);
+                        w.write_index(&ix).map_err(|e| io_v(label, "write-index", &describe, e))?;
+                        w.try_finish().map_err(|e| io_v(label, "write-index", &describe, e))?;
+                    }
+                    let back = tabix::io::Reader::new(&buf[..]).read_index().map_err(|e| io_v(label, "read-index", &describe, e))?;
+                    if back == ix {
+                        ch.tag("index-equal-after-write-read");
+                    }
+                    run!(&back, "reread");
+                }
+            }
+            Kind::VcfBinned(ms, d) => {
+                let ix: csi::Index =
+                    vcfx::vcf_index_with::<BinnedIndex>(&bytes, &recs, flavour, ms, d).map_err(|e| io_v(label, "index", &describe, e))?;
+                if !reread {
+                    run!(&ix, "memory");
+                } else {
+                    let back = csi_rt(&ix).map_err(|e| io_v(label, "write-read-index", &describe, e))?;
+                    if back == ix {
+                        ch.tag("index-equal-after-write-read");
+                    }
+                    run!(&back, "reread");
+                }
+            }
+            _ => unreachable!(),
+        }
+    }
+    ch.steps(queries);
+    if nonempty > 0 {
+        ch.tag("some-nonempty-answer");
+    }
+    if pruned > 0 {
+        ch.tag("some-query-with-min_offset>0");
+    }
+    if recs.len() >= 2 && recs.windows(2).any(|w| w[0].rid == w[1].rid && w[0].rid.is_some() && w[0].end > w[1].end) {
+        ch.tag("long-record-before-shorter-one");
+    }
+    Ok(())
+}
+
+fn csi_rt(ix: &csi::Index) -> std::io::Result<csi::Index> {
+    let mut buf = Vec::new();
+    {
+        let mut w = csi::io::Writer::new(&mut buf);
+        w.write_index(ix)?;
+        w.into_inner().finish()?;
+    }
+    csi::io::Reader::new(&buf[..]).read_index()
+}
+
+fn main() {
+    vmc::run("C04", "model_checking", |ctx| {
+        ctx.rule(
+            "every sorted sequence (ties in either order) of <= k record shapes (start x span x mapped/placed-unmapped, from the \
+             bin-edge alphabet of the index geometry) on the focus reference x (block layout, reference container, unplaced records) \
+             x index kind x VCF flavour; per file every region [a,b], a.., ..=b over the edge alphabet +-1 and record ends +-1, \
+             whole references and the unmapped query, index in memory and after write->read; executions = files x index kinds, \
+             transitions = queries, distinct = distinct files/answers",
+        );
+        ctx.assume("gidx::span implements SAMv1 §1.4 (POS + sum of M/D/N/=/X, zero span => 1 base) and the VCF end rule (END before 4.5; POS + max(len(REF), SVLEN, LEN) - 1 from 4.5, DESIGN.md §4 C04)");
+        ctx.assume("the model of a file is the list of records handed to the noodles writer; the full scan with the plain reader is checked against it first");
+
+        // scratch directory for the path-based fs::index functions (removed at the end)
+        let base = if std::path::Path::new("/dev/shm").is_dir() { PathBuf::from("/dev/shm") } else { std::env::temp_dir() };
+        let dir = tempfile::Builder::new().prefix("c04-").tempdir_in(base).expect("tempdir");
+
+        let quick = ctx.quick();
+        // quick tier: scaled-down alphabets (6 starts: 1, L, L+1, 8L+1, 4096L+1, N-2; 5 spans: 0, 1, L, L+1, 8L+1),
+        // <= 2 records on the focus reference, four covering (layout, container, unplaced) combinations.
+        let kinds_q = vec![
+            Kind::BamBai,
+            Kind::BcfCsi,
+            Kind::VcfTabix,
+            Kind::BamBinned(14, 5),
+            Kind::BamBinned(3, 2),
+            Kind::BamLinear(3, 2),
+            Kind::VcfBinned(14, 5),
+        ];
+        let kinds_t = vec![
+            Kind::BamBai,
+            Kind::BcfCsi,
+            Kind::VcfTabix,
+            Kind::BamBinned(14, 5),
+            Kind::BamBinned(12, 5),
+            Kind::BamBinned(14, 6),
+            Kind::BamBinned(3, 2),
+            Kind::BamLinear(12, 5),
+            Kind::BamLinear(3, 2),
+            Kind::VcfBinned(14, 5),
+            Kind::VcfBinned(3, 2),
+        ];
+        if quick {
+            let sp = Space { kinds: kinds_q, combos: combos_covering(), max_records: 2, reduced: true, scratch: dir.path().to_path_buf() };
+            ctx.harness(Config::new("query_le2_reduced", 0), |ch| body(ch, &sp));
+        } else {
+            let sp = Space { kinds: kinds_t.clone(), combos: combos_pairs(), max_records: 2, reduced: false, scratch: dir.path().to_path_buf() };
+            ctx.harness(Config::new("query_le2_full", 0), |ch| body(ch, &sp));
+            let sp = Space { kinds: kinds_t, combos: combos_covering(), max_records: 3, reduced: true, scratch: dir.path().to_path_buf() };
+            ctx.harness(Config::new("query_le3_reduced", 0), |ch| body(ch, &sp));
+        }
+        drop(dir);
+    });
+}
